@@ -53,6 +53,11 @@ type mxConn struct {
 	// MX/TLS security level established for this connection.
 	mxLevel  module.MXLevel
 	tlsLevel module.TLSLevel
+
+	// Connection was established for a message that had security policies
+	// disabled (TLS-Required: No), so it was not checked against them and
+	// must not be reused for other messages.
+	secOverride bool
 }
 
 func (c *mxConn) Usable() bool {
@@ -283,10 +288,11 @@ func (rd *remoteDelivery) connectionForDomain(ctx context.Context, domain string
 
 func (rd *remoteDelivery) newConn(ctx context.Context, domain string) (*mxConn, error) {
 	conn := mxConn{
-		reuseLimit: rd.rt.connReuseLimit,
-		C:          smtpconn.New(),
-		domain:     domain,
-		lastUseAt:  time.Now(),
+		reuseLimit:  rd.rt.connReuseLimit,
+		C:           smtpconn.New(),
+		domain:      domain,
+		lastUseAt:   time.Now(),
+		secOverride: rd.secOverride,
 	}
 
 	conn.Dialer = rd.rt.dialer
